@@ -216,6 +216,40 @@ theorem bad_entry_never_widens (es₁ es₂ : List Entry) (f : Fam) (k : Nat) :
   unfold Set.new
   simp [List.filterMap_append]
 
+/-- **The order and multiplicity of entries are irrelevant.** Two configured
+lists with the same entries — reordered, with duplicates added or dropped —
+answer every source of every family alike: no entry shadows, masks or
+cancels another, whatever `sort.Slice` and the running maximum did with them. -/
+theorem set_contains_order_free (es₁ es₂ : List Entry) (f : Fam) (k : Nat)
+    (hm : ∀ e, e ∈ es₁ ↔ e ∈ es₂) (hok : ∀ e ∈ es₁, EntryOk e) :
+    (Set.new es₁).contains f k = (Set.new es₂).contains f k := by
+  have hok2 : ∀ e ∈ es₂, EntryOk e := fun e he => hok e ((hm e).mpr he)
+  have h4 : (Set.new es₁).contains Fam.v4 k = (Set.new es₂).contains Fam.v4 k := by
+    apply Bool.eq_iff_iff.mpr
+    rw [set_contains_v4_iff es₁ k hok, set_contains_v4_iff es₂ k hok2]
+    constructor
+    · rintro ⟨a, b, h, hp⟩; exact ⟨a, b, (hm _).mp h, hp⟩
+    · rintro ⟨a, b, h, hp⟩; exact ⟨a, b, (hm _).mpr h, hp⟩
+  cases f with
+  | v4 => exact h4
+  | mapped => rw [mapped_counts_as_v4, mapped_counts_as_v4]; exact h4
+  | v6 =>
+    apply Bool.eq_iff_iff.mpr
+    rw [set_contains_v6_iff es₁ k hok, set_contains_v6_iff es₂ k hok2]
+    constructor
+    · rintro ⟨a, b, h, hp⟩; exact ⟨a, b, (hm _).mp h, hp⟩
+    · rintro ⟨a, b, h, hp⟩; exact ⟨a, b, (hm _).mpr h, hp⟩
+
+-- non-vacuity: 10.0.0.0/8 nested over 10.1.0.0/16, listed in either order and once more
+example : (∀ e, e ∈ [some (Fam.v4, 0x0a000000, 8), some (Fam.v4, 0x0a010000, 16)] ↔
+      e ∈ [some (Fam.v4, 0x0a010000, 16), some (Fam.v4, 0x0a000000, 8), some (Fam.v4, 0x0a010000, 16)]) ∧
+    (∀ e ∈ [some (Fam.v4, 0x0a000000, 8), some (Fam.v4, 0x0a010000, 16)], EntryOk e) := by
+  refine ⟨fun e => ?_, fun e he => ?_⟩
+  · simp only [List.mem_cons, List.not_mem_nil, or_false]
+    grind
+  · simp only [List.mem_cons, List.not_mem_nil, or_false] at he
+    rcases he with rfl | rfl <;> simp [EntryOk]
+
 /-- **Deny is final, internal traffic is exempt.** The access list lets the
 chain continue exactly for internal sub-queries and for sources inside the
 list; otherwise it cancels the chain (no handler after it runs, nothing is
